@@ -29,6 +29,7 @@ type hookRow struct {
 	collectPos         string
 	applied            bool
 	dir                string // "Desc" | "Asc"
+	bound, indexed     string // slice whose length bounds the apply loop / slice indexed in its body
 	base, store        string // Hooks field read as the innermost hook / assigned
 	nilDefault         bool
 	guarded            bool // apply block is inside `if v != nil`
@@ -332,11 +333,13 @@ func genHooks(l *Loader) (string, string, error) {
 	b.WriteString("     hr_applied   : a loop folds that slice into srv.hooks.<hr_store>, starting from srv.hooks.<hr_base>\n")
 	b.WriteString("     hr_dir       : Desc = the loop index runs from len-1 down to 0, i.e. the wrapper of the FIRST\n")
 	b.WriteString("                    plugin is applied last and is the outermost; Asc = the opposite\n")
-	b.WriteString("     hr_nil_default : a no-op hook is substituted when srv.hooks.<hr_base> is nil *)\n")
+	b.WriteString("     hr_nil_default : a no-op hook is substituted when srv.hooks.<hr_base> is nil\n")
+	b.WriteString("     hr_slice / hr_bound / hr_indexed : the slice the wrappers are collected into, the slice whose length\n")
+	b.WriteString("                    bounds the apply loop, the slice the loop body indexes (all three must be the same) *)\n")
 	b.WriteString("From Coq Require Import String List.\nImport ListNotations.\nLocal Open Scope string_scope.\n\n")
 	b.WriteString("Inductive fold_dir := Desc | Asc | NoLoop.\n\n")
 	b.WriteString("Record hook_row := mk_hook_row {\n  hr_field : string;      (* field of HookWrapper *)\n  hr_kind : string;       (* hook kind K of `type <field type> func(K) K` *)\n")
-	b.WriteString("  hr_collected : bool;\n  hr_applied : bool;\n  hr_dir : fold_dir;\n  hr_base : string;       (* Hooks field the fold starts from *)\n  hr_store : string;      (* Hooks field the result is stored to *)\n  hr_nil_default : bool\n}.\n\n")
+	b.WriteString("  hr_collected : bool;\n  hr_applied : bool;\n  hr_dir : fold_dir;\n  hr_base : string;       (* Hooks field the fold starts from *)\n  hr_store : string;      (* Hooks field the result is stored to *)\n  hr_nil_default : bool;\n  hr_slice : string;      (* local slice the plugins' wrappers of this field are collected into *)\n  hr_bound : string;      (* slice whose LENGTH bounds the apply loop *)\n  hr_indexed : string     (* slice the apply loop takes the wrappers from *)\n}.\n\n")
 	var items []string
 	for _, f := range wfields {
 		items = append(items, mustCoqString(f))
@@ -370,8 +373,9 @@ func genHooks(l *Loader) (string, string, error) {
 			cm += " NOT applied"
 			notApplied = append(notApplied, f)
 		}
-		items = append(items, fmt.Sprintf("mk_hook_row %s %s %s %s %s %s %s %s  (*%s *)", mustCoqString(r.field), mustCoqString(r.kind),
-			coqBool(r.collected), coqBool(r.applied), dir, mustCoqString(r.base), mustCoqString(r.store), coqBool(r.nilDefault), coqComment(cm)))
+		items = append(items, fmt.Sprintf("mk_hook_row %s %s %s %s %s %s %s %s %s %s %s  (*%s *)", mustCoqString(r.field), mustCoqString(r.kind),
+			coqBool(r.collected), coqBool(r.applied), dir, mustCoqString(r.base), mustCoqString(r.store), coqBool(r.nilDefault),
+			mustCoqString(r.slice), mustCoqString(r.bound), mustCoqString(r.indexed), coqComment(cm)))
 	}
 	// coqList puts ';' after the item text; the trailing comment must come after it: rebuild by hand
 	b.WriteString("Definition hook_rows : list hook_row := [\n")
@@ -392,6 +396,11 @@ func genHooks(l *Loader) (string, string, error) {
 	sum := fmt.Sprintf("%d HookWrapper fields, %d Hooks fields, %d collected, %d applied", len(wfields), len(hfields), nColl, nAppl)
 	if len(notApplied) > 0 {
 		sum += "; NOT applied: " + strings.Join(notApplied, ",")
+	}
+	for _, f := range wfields {
+		if r := rows[f]; r.applied && (r.bound != r.slice || r.indexed != r.slice) {
+			sum += fmt.Sprintf("; %s: loop bound len(%s), indexes %s, collected into %s", f, r.bound, r.indexed, r.slice)
+		}
 	}
 	return content, sum, nil
 }
@@ -472,31 +481,56 @@ func applyBlock(l *Loader, s *ast.IfStmt, recv string, sliceOf, sliceField map[s
 		if ids, ok := lp.Post.(*ast.IncDecStmt); ok && exprString(ids.X) == iv {
 			post = ids.Tok.String()
 		}
-		lenv := "len(...)" // exprString of len(v): check the argument separately
-		argOK := func(e ast.Expr) bool {
+		// the bound: len(<slice>) of ANY of the wrapper slices; which one is recorded in the row
+		// (hr_bound) and judged by the theorem, not here
+		lenOf := func(e ast.Expr) (string, bool) {
 			c, ok := e.(*ast.CallExpr)
-			return ok && exprString(c.Fun) == "len" && len(c.Args) == 1 && exprString(c.Args[0]) == v
+			if !ok || exprString(c.Fun) != "len" || len(c.Args) != 1 {
+				return "", false
+			}
+			name := exprString(c.Args[0])
+			if _, isSlice := sliceOf[name]; !isSlice {
+				return "", false
+			}
+			return name, true
 		}
-		_ = lenv
+		bound := ""
 		switch {
-		case argOK(ini.Rhs[0]) && cond == iv+">0" && post == "--":
+		case cond == iv+">0" && post == "--":
+			b, ok := lenOf(ini.Rhs[0])
+			if !ok {
+				return fmt.Errorf("initPluginHooks: %s: loop `for %s := %s; %s; %s--`: start is not len(<wrapper slice>)", where, iv, start, cond, iv)
+			}
+			bound = b
 			dir, idx = "Desc", &ast.BinaryExpr{X: ast.NewIdent(iv), Op: token.SUB, Y: &ast.BasicLit{Kind: token.INT, Value: "1"}}
-		case start == "len(...)-1" && argOK(ini.Rhs[0].(*ast.BinaryExpr).X) && cond == iv+">=0" && post == "--":
+		case start == "len(...)-1" && cond == iv+">=0" && post == "--":
+			b, ok := lenOf(ini.Rhs[0].(*ast.BinaryExpr).X)
+			if !ok {
+				return fmt.Errorf("initPluginHooks: %s: loop start is not len(<wrapper slice>)-1", where)
+			}
+			bound = b
 			dir, idx = "Desc", ast.NewIdent(iv)
 		case start == "0" && post == "++" && lp.Cond != nil:
 			be, ok := lp.Cond.(*ast.BinaryExpr)
-			if !ok || be.Op != token.LSS || exprString(be.X) != iv || !argOK(be.Y) {
+			if !ok || be.Op != token.LSS || exprString(be.X) != iv {
 				return fmt.Errorf("initPluginHooks: %s: ascending loop bound not understood", where)
 			}
+			b, ok := lenOf(be.Y)
+			if !ok {
+				return fmt.Errorf("initPluginHooks: %s: ascending loop bound is not len(<wrapper slice>)", where)
+			}
+			bound = b
 			dir, idx = "Asc", ast.NewIdent(iv)
 		default:
 			return fmt.Errorf("initPluginHooks: %s: loop `for %s := %s; %s; %s%s` not understood", where, iv, start, cond, iv, post)
 		}
+		row.bound = bound
 		loopBody = lp.Body
 	case *ast.RangeStmt:
-		if exprString(lp.X) != v || lp.Value == nil || lp.Tok != token.DEFINE {
+		if _, isSlice := sliceOf[exprString(lp.X)]; !isSlice || lp.Value == nil || lp.Tok != token.DEFINE {
 			return fmt.Errorf("initPluginHooks: %s: range loop not understood", where)
 		}
+		row.bound, row.indexed = exprString(lp.X), exprString(lp.X)
 		dir, idx = "Asc", nil
 		loopBody = lp.Body
 		// h = w(h)
@@ -528,9 +562,13 @@ func applyBlock(l *Loader, s *ast.IfStmt, recv string, sliceOf, sliceField map[s
 			return fmt.Errorf("initPluginHooks: %s: loop body is not `%s = %s[idx](%s)`", where, h, v, h)
 		}
 		ie, ok := c.Fun.(*ast.IndexExpr)
-		if !ok || exprString(ie.X) != v || exprString(ie.Index) != exprString(idx) {
-			return fmt.Errorf("initPluginHooks: %s: loop body indexes %s (expected %s[%s])", where, exprString(c.Fun), v, exprString(idx))
+		if !ok || exprString(ie.Index) != exprString(idx) {
+			return fmt.Errorf("initPluginHooks: %s: loop body indexes %s (expected <wrapper slice>[%s])", where, exprString(c.Fun), exprString(idx))
 		}
+		if _, isSlice := sliceOf[exprString(ie.X)]; !isSlice {
+			return fmt.Errorf("initPluginHooks: %s: loop body indexes %s, which is not one of the wrapper slices", where, exprString(ie.X))
+		}
+		row.indexed = exprString(ie.X)
 	}
 	// srv.hooks.K' = h
 	st, ok := body[i+1].(*ast.AssignStmt)
